@@ -100,6 +100,10 @@ func (k msgServer) NonVotingUndelegate(ctx context.Context, msg *types.MsgNonVot
 	}
 
 	// Append Unstaking state
+	// staking converts the amount to shares and back: it may unbond less than requested
+	// (rounding at an exchange rate other than one). Record what it will really release:
+	// the end blocker pays exactly this amount out when the entry completes.
+	output = undelegateResponse.Amount
 	_, err = k.AppendUnbonding(ctx, types.Unbonding{
 		Address:        recipient.String(),
 		CompletionTime: undelegateResponse.CompletionTime,
